@@ -216,8 +216,9 @@ def gen_watch_project(r, safe: bool = False):
     return Project(scripts=scripts, files=files, env={}), feats
 
 
-def gen_edit(r, files, dirs, root, in_build: bool, safe: bool = False):
+def gen_edit(r, files, dirs, root, in_build: bool, safe: bool = False, initial=None):
     """One edit (a short list of primitive edits) valid on the tree `files`/`dirs`."""
+    gone = sorted(p for p in (initial or {}) if p not in files and p != "plan.py")
     srcs = sorted(p for p in files if not p.startswith("out/") and p not in ("plan.py", "sub_plan.py"))
     statics = sorted(p for p in srcs if p.split("/")[0] in ("src", "data", "g", "rec"))
     outs = sorted(p for p in files if p.startswith("out/"))
@@ -234,7 +235,7 @@ def gen_edit(r, files, dirs, root, in_build: bool, safe: bool = False):
         kinds = ["change", "change", "delete", "del_recreate_same", "del_recreate_diff", "change_restore", "touch",
                  "add_glob", "add_tree_file", "rmtree", "rmtree_recreate", "mkdir_plain", "mkdir_matching",
                  "new_dir_with_file", "move_dir_back", "move_dir", "move_file", "tamper_out", "delete_out",
-                 "create_missing", "delete_create_other"]
+                 "create_missing", "delete_create_other", "restore_deleted", "restore_deleted"]
     if safe:
         # stay away from the four known classes (new / removed / vanished matched directories, a created
         # file that is an undeclared input and a glob match) so that other differences are not masked
@@ -260,6 +261,11 @@ def gen_edit(r, files, dirs, root, in_build: bool, safe: bool = False):
         return kind, [("write", p, "temporary\n"), ("write", p, text(p))]
     if kind == "touch" and pool:
         return kind, [("touch", r.choice(pool))]
+    if kind == "restore_deleted" and gone:
+        p = r.choice(gone)
+        c = initial[p]
+        c = c.decode("utf-8", "replace") if isinstance(c, bytes) else c
+        return kind, [("write", p, c if r.random() < 0.5 else c + f"restored {n}\n")]
     if kind == "add_glob":
         return kind, [("write", f"g/n{r.randint(0, 3)}.in", f"new {n}\n")]
     if kind == "add_tree_file":
@@ -424,6 +430,7 @@ def run_pair(ctx, project, kw, rounds_fn, seed, where, applied_log=None):
         settle = 0
         pending_compare = False
         reports_w, reports_r = [], []
+        since = len(history)  # first history entry that has not been followed by a successful comparison
         while True:
             nround += 1
             nxt = rounds_fn(nround, simR)
@@ -436,7 +443,7 @@ def run_pair(ctx, project, kw, rounds_fn, seed, where, applied_log=None):
             before = set(simR.dirs())
             simR.apply(edits)
             newdirs = sorted(set(simR.dirs()) - before)
-            history.append({"round": nround, "kinds": label, "edits": plain(edits),
+            history.append({"round": nround, "kinds": label, "edits": plain(edits), "new_directories": newdirs,
                             "external": [(k, plain(e)) for k, e in external]})
             if applied_log is not None:
                 applied_log.begin()
@@ -469,7 +476,7 @@ def run_pair(ctx, project, kw, rounds_fn, seed, where, applied_log=None):
             ctx.stats.count("rounds-compared")
             aspects, detail = diff_results(rW, rR)
             if aspects:
-                sig = classify(aspects, rW, rR, newdirs_all(history, newdirs), reports_w, reports_r,
+                sig = classify(aspects, rW, rR, newdirs_all(history[since:], newdirs), reports_w, reports_r,
                                lambda p: os.path.isdir(os.path.join(simR.root, p)))
                 what = (f"after edits {label}: watch rebuild and restart differ in {'+'.join(aspects)} "
                         f"(watch: {rW.status} {rW.returncode!r} ran {rW.commands}; restart: {rR.status} "
@@ -481,6 +488,7 @@ def run_pair(ctx, project, kw, rounds_fn, seed, where, applied_log=None):
                 ctx.stats.count("pairs-differ-" + sig)
                 return
             reports_w, reports_r = [], []
+            since = len(history)
             if rW.status != "done":
                 return
 
@@ -489,18 +497,10 @@ DRAINED = 32
 
 
 def newdirs_all(history, newdirs):
-    """Directories created by the edits of this and the preceding (not compared) rounds."""
+    """Directories that did not exist before the edits of this and the preceding (not compared) rounds."""
     out = set(newdirs)
     for h in history:
-        for e in h.get("edits", []):
-            if e[0] == "mkdir":
-                out.add(e[1])
-            elif e[0] == "move":
-                out.add(e[2])
-            elif e[0] == "write":
-                parts = e[1].split("/")[:-1]
-                for j in range(1, len(parts) + 1):
-                    out.add("/".join(parts[:j]))
+        out.update(h.get("new_directories", []))
     return sorted(out)
 
 
@@ -523,7 +523,7 @@ def sim_pairs(ctx, ncase: int, salt: str, only: int | None = None, applied_log=N
             kw = {"njob": r.randint(1, 3)}
         # a phase that drains stops at a schedule-dependent point; failing steps do not drain with -k
         kw["keep_going"] = True
-        nrounds = r.randint(1, 3)
+        nrounds = r.randint(1, 4)
         ext_case = r.random() < 0.3
         seed = r.randint(0, 10**6)
         where = {"case_seed": [ctx.seed, salt, i], "family": family, "features": feats, "options": dict(kw)}
@@ -533,7 +533,9 @@ def sim_pairs(ctx, ncase: int, salt: str, only: int | None = None, applied_log=N
             feats = feats + ["safe-edits"]
             where["features"] = feats
 
-        def rounds_fn(n, simR, r=r, nrounds=nrounds, ext_case=ext_case, safe=safe):
+        initial = dict(project.files)
+
+        def rounds_fn(n, simR, r=r, nrounds=nrounds, ext_case=ext_case, safe=safe, initial=initial):
             if n == 0:
                 if ext_case:
                     files, dirs = simR.files(), simR.dirs()
@@ -546,7 +548,7 @@ def sim_pairs(ctx, ncase: int, salt: str, only: int | None = None, applied_log=N
             # edits are generated against the tree as it evolves: apply to a scratch view
             files, dirs = dict(simR.files()), list(simR.dirs())
             for _ in range(r.randint(1, 3)):
-                lab, e = gen_edit(r, files, dirs, simR.root, False, safe)
+                lab, e = gen_edit(r, files, dirs, simR.root, False, safe, initial)
                 if not e:
                     continue
                 ok = True
